@@ -20,7 +20,7 @@ ASSUMPTIONS = [
 REQUIRED = ["pairs_with_identical_ids", "pairs_equal", "pairs_different", "difference_at_child_position_ge1", "difference_at_depth_ge2", "symmetric_checked"]
 EXHAUSTIVE = {"quick": False, "thorough": False}
 
-KINDS = ("attr_type", "name", "content", "content_none", "tail", "prefix", "attr_add", "attr_del", "attr_val", "extras_add", "extras_val",
+KINDS = ("attr_reorder", "extras_reorder", "ns_reorder", "attr_type", "name", "content", "content_none", "tail", "prefix", "attr_add", "attr_del", "attr_val", "extras_add", "extras_val",
          "ns_add", "ns_del", "ns_val", "child_append", "child_insert0", "child_remove_last", "child_remove_first", "child_swap")
 
 
@@ -57,7 +57,21 @@ def ask(ctx, a, b, wit_fn, what):
 
 def apply_difference(rng, n, kind):
     """Introduces one difference at node n (of the copy). Returns False if not applicable."""
-    if kind == "attr_type":
+    if kind in ("attr_reorder", "extras_reorder", "ns_reorder"):
+        # NOT a difference: the same entries entered in another order
+        d = {"attr_reorder": n.attributes, "extras_reorder": n.extras, "ns_reorder": n.nsmap}[kind]
+        if len(d) < 2:
+            return False
+        items = list(d.items())
+        items.reverse()
+        if kind == "ns_reorder":
+            n.nsmap = dict(items)
+        else:
+            for k_ in list(d):
+                del d[k_]
+            for k_, v_ in items:
+                d[k_] = v_
+    elif kind == "attr_type":
         # same text, other type: '2' vs 2, 'None' vs None, 'True' vs True, '1.5' vs 1.5
         conv = {"2": 2, "10": 10, "None": None, "True": True, "1.5": 1.5}
         ks = [k for k, v in n.attributes.items() if isinstance(v, str) and v in conv]
